@@ -325,7 +325,9 @@ def explore_program(args) -> Dict[str, Any]:
                 ds.spawn(f"T{k}", body)
         return shims.run_execution(build, choose, focus=FOCUS, max_steps=6000)
 
-    with shims.patched(extra=DET_PATCH):
+    # the set-up thread's singleton trampoline dates from import time (real Lock/Condition): should a changed tree share
+    # it between threads it must at least be a cooperative one, or the logical threads block for real
+    with shims.patched(extra=DET_PATCH), _fresh_singleton_trampoline():
         phases = [(min(bound, 1), max_sched, 0), (bound, max_sched, nrandom)] if bound > 1 else [(bound, max_sched, nrandom)]
         truncated = False
         for (b, ms, nr) in phases:
